@@ -10,6 +10,8 @@ open StateStore Drv
   * `memp`  — `Mem.step`; the answer carries what the store holds after the op     → `<out> ;; state <ty> <object>`
   * `sqlp`  — `Sql.step`; ditto (`Sql.abs`)                                        → `<out> ;; state <ty> <object>`
   * `sqlr`  — `Sql.step`; the answer carries the database row after the op         → `<out> ;; norow` | `<out> ;; row <ty> <object>`
+  `persist|reopen|copy|migrate`: the store is replaced by one restored from its serialized payload (`Mem.persist` /
+  `Sql.persist`; nothing happens to the dict of `live`) → `none`, with the same suffix as an op of that machine
 -/
 namespace Drv.StateStoreHist
 open Drv.StateStore
@@ -46,6 +48,16 @@ def step (st : St) (line : String) : St × String :=
       match m with
       | some mm => ({ m := mm, sc := sc, ty := ty }, "ok")
       | none => (st, "bad-op")
+    | _, _ => (st, "bad-op")
+  | ["persist", how] =>
+    let p? : Option Persist :=
+      if how == "reopen" then some .reopen else if how == "copy" then some .copyRun
+      else if how == "migrate" then some .migrate else none
+    match st.m, p? with
+    | .live _, some _ => (st, showOut .none)
+    | .memp m, some p => let m' := m.persist p; ({ st with m := .memp m' }, s!"{showOut .none} ;; {showRoot m'.root}")
+    | .sqlp s, some p => let s' := s.persist p; ({ st with m := .sqlp s' }, s!"{showOut .none} ;; {showRoot s'.abs}")
+    | .sqlr s, some p => let s' := s.persist p; ({ st with m := .sqlr s' }, s!"{showOut .none} ;; {showRow s'}")
     | _, _ => (st, "bad-op")
   | _ =>
     match st.m, parseOp? st.sc st.ty fs with
